@@ -10,22 +10,24 @@
 (*        Commit -> output, w = None; CommitAfter(t) -> close = t;         *)
 (*        Discard -> w = None; Continue -> nothing                         *)
 (*   Watermark(ts): if close is set and close < ts -> output, w = None     *)
-(*   FlushAndRestart | Terminate: ONLY IF close is set -> output, w = None *)
-(*        otherwise the open transaction STAYS (named deviation, finding   *)
-(*        F7: recycle() is false, so WindowOperator keeps the manager and  *)
-(*        the next iteration's elements join the old transaction)          *)
+(*   FlushAndRestart | Terminate: if close is set -> output, w = None;     *)
+(*        otherwise w = None without output (an undecided transaction ends *)
+(*        with its iteration).  (FIX_F7 = FALSE: the code before commit    *)
+(*        c2a6168 kept the open transaction - recycle() false, so          *)
+(*        WindowOperator kept the manager and the next iteration's         *)
+(*        elements joined the old transaction: finding F7, fixed)          *)
 (*   results carry no timestamp                                            *)
 (*                                                                         *)
 (* The user logic is part of the input: every element carries the command  *)
 (* the logic returns for it (op, opt).  The wrapper feeds every sequence   *)
 (* of at most MAXE elements (each with any command, commit times 0..TMAX)  *)
-(* and MAXW increasing watermarks per iteration.  OPENEND = FALSE excludes *)
-(* exactly F7's input class: an iteration that ends while a transaction    *)
-(* without commit time is open.                                            *)
+(* and MAXW increasing watermarks per iteration, including iterations that *)
+(* end while a transaction without commit time is open (F7's input class). *)
 (***************************************************************************)
 EXTENDS Naturals, Integers, Sequences, FiniteSets, TLC, Json, WindowProps
 
-CONSTANTS TMAX, MAXE, MAXW, ITERS, KEYS, OPENEND
+CONSTANTS TMAX, MAXE, MAXW, ITERS, KEYS,
+          FIX_F7    \* TRUE: the code as of c2a6168; FALSE: before (regression documentation)
 
 TxInit == [open |-> FALSE, els |-> <<>>, close |-> NOTS]
 
@@ -44,7 +46,7 @@ TxStep(st, e) ==
     [] e.k \in {"R", "X"} ->
          IF st.open /\ st.close # NOTS
          THEN [st |-> TxInit, out |-> <<[g |-> st.els, ts |-> NOTS]>>]
-         ELSE [st |-> st, out |-> <<>>]
+         ELSE [st |-> IF FIX_F7 THEN TxInit ELSE st, out |-> <<>>]
     [] OTHER -> [st |-> st, out |-> <<>>]
 
 TxRecycle(st) == ~st.open
@@ -92,12 +94,8 @@ Wm(w) ==
   /\ Control(El("W", 0, 0, w, 0, 0, 0))
   /\ nw' = nw + 1 /\ lastw' = w /\ UNCHANGED <<it, cnt, done>>
 
-(* F7's input class *)
-OpenUndecided == \E k \in live : st[k].open /\ st[k].close = NOTS
-
 EndIter ==
   /\ ~done /\ it < ITERS
-  /\ OPENEND \/ ~OpenUndecided
   /\ Control(El("R", 0, 0, 0, 0, 0, 0))
   /\ it' = it + 1 /\ cnt' = 0 /\ nw' = 0 /\ lastw' = NOTS /\ UNCHANGED done
 
